@@ -23,6 +23,7 @@ def FlowCtrl.geo (c : FlowCtrl) : Nat × Nat :=
   match c.stat with
   | .global rd => (500, rd.iv)
   | .priv g _ rd _ => (g.L, rd.iv)
+  | .nop => (1, 1)
 
 /-- the request of `n` tokens at `now` fits a rule with threshold `thr` whose window is `W` wide in buckets of `L`:
 admitted-in-window + n ≤ threshold (exact comparison) -/
@@ -167,16 +168,18 @@ def CtrlOk (c : FlowCtrl) (adm : List (Nat × Nat)) (tl : Nat) : Prop :=
   match c.stat with
   | .global rd => 500 ≤ rd.iv ∧ rd.iv ≤ 10000
   | .priv g ring rd hist => 0 < g.n ∧ 0 < g.L ∧ g.L ≤ rd.iv ∧ rd.iv ≤ g.interval ∧ BInv g ring hist tl ∧ PassAgree hist adm
+  | .nop => False      -- a rule that needs statistics (every reject rule) never gets the no-op statistic
 
 /-- guard: no `u64` wrap in `end - interval + bucket_len`, stamp 0 means never used -/
 def CtrlGuard (c : FlowCtrl) (t : Nat) : Prop :=
   match c.stat with
   | .global rd => rd.iv ≤ globalGeo.start t
   | .priv g _ rd _ => rd.iv ≤ g.start t ∧ 0 < g.start t
+  | .nop => True
 
 /-- whatever `stat_interval_ms` a rule carries, the statistics generated for it are well formed -/
 theorem flowStatFor_ok (id : String) (thr : F64) (ivl : Nat) (tl : Nat) :
-    CtrlOk ⟨id, thr, ivl, flowStatFor ivl⟩ [] tl := by
+    CtrlOk { id := id, thr := thr, ivl := ivl, stat := flowStatFor ivl } [] tl := by
   unfold CtrlOk flowStatFor
   by_cases h0 : ivl = 0 ∨ ivl = 1000
   · simp only [h0, if_true]; decide
@@ -209,6 +212,7 @@ theorem ctrlOk_mono (c : FlowCtrl) (adm : List (Nat × Nat)) (tl t : Nat) (h : C
   | priv g ring rd hist =>
     rw [hs] at h
     exact ⟨h.1, h.2.1, h.2.2.1, h.2.2.2.1, binv_mono g ring hist tl t h.2.2.2.2.1 ht, h.2.2.2.2.2⟩
+  | nop => rw [hs] at h; exact h.elim
 
 theorem ctrlOk_recordPass (c : FlowCtrl) (adm : List (Nat × Nat)) (tl t b : Nat)
     (h : CtrlOk c adm tl) (ht : tl ≤ t) (hg : CtrlGuard c t) :
@@ -229,6 +233,7 @@ theorem ctrlOk_recordPass (c : FlowCtrl) (adm : List (Nat × Nat)) (tl t b : Nat
     · unfold CtrlOk
       exact ⟨h.1, h.2.1, h.2.2.1, h.2.2.2.1, hinv, passAgree_pass _ _ _ _ h.2.2.2.2.2⟩
     · unfold FlowCtrl.geo; rw [hs]
+  | nop => unfold CtrlOk at h; rw [hs] at h; exact h.elim
 
 /-- what a controller reads is the Spec's window count -/
 theorem curCount_eq (c : FlowCtrl) (node : Node) (adm : List (Nat × Nat)) (tl now : Nat)
@@ -251,6 +256,7 @@ theorem curCount_eq (c : FlowCtrl) (node : Node) (adm : List (Nat × Nat)) (tl n
     simp only []
     rw [sliding_sum_eq g hc.1 hc.2.1 ring hist tl rd now .pass hc.2.2.2.2.1 hnow hc.2.2.1 hc.2.2.2.1 hg.1]
     exact hc.2.2.2.2.2 _ _ _
+  | nop => rw [hs] at hc; exact hc.elim
 
 theorem blocks_iff (c : FlowCtrl) (node : Node) (adm : List (Nat × Nat)) (tl now n : Nat)
     (hn : NodeOk node adm tl) (hc : CtrlOk c adm tl) (hnow : tl ≤ now) (hg : CtrlGuard c now) :
@@ -332,6 +338,7 @@ theorem ctrlGuard_recordPass (c : FlowCtrl) (t b t' : Nat) (h : CtrlGuard c t') 
     cases ring.record g t (.add .pass b) with
     | none => simp only []; unfold CtrlGuard; rw [hs]; exact h
     | some r => simp only []; exact h
+  | nop => simp only []; exact h
 
 /-- the guard of a controller only depends on its (immutable) geometry -/
 def SameGuards (a b : List FlowCtrl) : Prop := ∀ t, (∀ c ∈ a, CtrlGuard c t) → (∀ c ∈ b, CtrlGuard c t)
@@ -415,7 +422,7 @@ theorem run_sysOk (s0 : FlowSys) (ops : List FOp) (t0 : Nat)
 
 /-- a fresh resource: new node, controllers generated for any list of rules `(id, threshold, stat_interval_ms)` -/
 def FlowSys.fresh (rules : List (String × F64 × Nat)) : FlowSys :=
-  { node := {}, ctrls := rules.map (fun r => ⟨r.1, r.2.1, r.2.2, flowStatFor r.2.2⟩) }
+  { node := {}, ctrls := rules.map (fun r => { id := r.1, thr := r.2.1, ivl := r.2.2, stat := flowStatFor r.2.2 }) }
 
 theorem fresh_sysOk (rules : List (String × F64 × Nat)) (t0 : Nat) : SysOk (FlowSys.fresh rules) [] t0 := by
   refine ⟨⟨ring_inv_init' _ t0, passAgree_nil⟩, ?_⟩
@@ -584,6 +591,44 @@ theorem run_admOk (rules : List (String × F64 × Nat)) (ops : List FOp) (t0 : N
                       · exact ih' hle' o ho
                     · exact ih' hle' o ho
               exact this older hmono' o (by rw [hrun]; exact ho)
+
+/-! ## the tie to `World.build`: on direct/reject controllers the general flow slot is `flowCheck` -/
+
+def FlowCtrl.isDirectReject (c : FlowCtrl) : Prop :=
+  (match c.calcr with | .direct => True | _ => False) ∧ (match c.checker with | .reject => True | _ => False)
+
+theorem step_directReject (c : FlowCtrl) (node : Node) (nowNs batch : Nat) (h : c.isDirectReject) :
+    c.step node nowNs batch =
+      (c, if c.blocks node (nowNs / 1000000) batch then .blocked c.id (toString (c.curCount node (nowNs / 1000000))) else .pass) := by
+  obtain ⟨h1, h2⟩ := h
+  unfold FlowCtrl.step FlowCtrl.allowed FlowCtrl.blocks
+  cases hc : c.calcr with
+  | warmUp s => rw [hc] at h1; exact h1.elim
+  | direct =>
+    simp only []
+    cases hk : c.checker with
+    | throttling l => rw [hk] at h2; exact h2.elim
+    | reject => simp only []; split <;> rfl
+
+/-- `World.build` runs `flowSlot`; for direct/reject controllers it changes no controller, sleeps nothing, and
+blocks exactly as `flowCheck` says (same rule, same snapshot) -/
+theorem flowSlot_is_flowCheck (ctrls : List FlowCtrl) (node : Node) (nowNs batch : Nat)
+    (h : ∀ c ∈ ctrls, c.isDirectReject) :
+    flowSlot ctrls node nowNs batch =
+      (ctrls, nowNs, (flowCheck ctrls node (nowNs / 1000000) batch).map (fun p => (p.1, toString p.2))) := by
+  induction ctrls with
+  | nil => rfl
+  | cons c rest ih =>
+    have hc := h c List.mem_cons_self
+    have hr := ih (fun x hx => h x (List.mem_cons_of_mem _ hx))
+    unfold flowSlot
+    rw [step_directReject c node nowNs batch hc]
+    unfold flowCheck at hr ⊢
+    by_cases hb : c.blocks node (nowNs / 1000000) batch = true
+    · simp only [hb, if_true, List.find?_cons, Option.map_some]
+    · have hb' : c.blocks node (nowNs / 1000000) batch = false := by simpa using hb
+      simp only [hb', Bool.false_eq_true, if_false, List.find?_cons]
+      rw [hr]
 
 /-! ## non-vacuity -/
 
